@@ -2,8 +2,8 @@
     and what it means for one of them to lie within its margin of the engine's value.
     Definitions only; the theorems relating them to [Api.yaml_verdict] are in
     proofs/ApiProofs.v. *)
-From Coq Require Import ZArith QArith Qabs List Bool String.
-From Verif Require Import Base Cal Period Api.
+From Coq Require Import ZArith QArith Qabs List Bool String Sorted.
+From Verif Require Import Base Cal Period Engine Api.
 Import ListNotations.
 Open Scope string_scope.
 
@@ -140,3 +140,38 @@ Definition instance_tree (i : nat) (cells : list cell) : ytree :=
 
 Definition by_instance (plural : string) (ids : list string) (cells : list cell) : list (string * ytree) :=
   [(plural, YD (map (fun ii => (fst ii, instance_tree (snd ii) cells)) (combine ids (seq 0 (List.length ids)))))].
+
+(** * /variable/<id>: the formula the listing shows as in force on a day *)
+
+(** The entry with the greatest start date on or before [d]; of two entries with the same
+    date the later one (a dict keeps the last value stored under a key).  Independent of the
+    order in which the entries are listed. *)
+Fixpoint listed_at (l : list (date * option expr)) (d : date) (best : option (date * option expr))
+  : option (date * option expr) :=
+  match l with
+  | [] => best
+  | (s, f) :: r =>
+      if date_leb s d then
+        match best with
+        | Some (s0, _) => if date_leb s0 s then listed_at r d (Some (s, f)) else listed_at r d best
+        | None => listed_at r d (Some (s, f))
+        end
+      else listed_at r d best
+  end.
+
+Definition entry_formula (b : option (date * option expr)) : option expr :=
+  match b with Some (_, f) => f | None => None end.
+
+Definition listing_in_force (l : list (date * option expr)) (d : date) : option expr :=
+  entry_formula (listed_at l d None).
+
+(** What Variable.__init__ / set_formulas guarantee (variables/variable.py): valid start
+    dates in ascending order (SortedDict over ISO texts), none after the end date ("The end
+    attribute of a variable must be posterior to the start dates of all its formulas"). *)
+Definition well_formed_variable (x : var) : Prop :=
+  Forall (fun se => valid (fst se)) (v_formulas x)
+  /\ StronglySorted (fun a b : date * expr => date_leb (fst a) (fst b) = true) (v_formulas x)
+  /\ match v_end x with
+     | Some e => valid e /\ Forall (fun se => date_leb (fst se) e = true) (v_formulas x)
+     | None => True
+     end.
